@@ -46,7 +46,7 @@ def generic_violations(case, results, expect_crash=None):
 
 def evaluate(prof, case, libs, timeout):
     """run a case and apply the profile's oracles. returns (violations, stats, results)"""
-    lib = libs[case.get("build", "plain")]
+    lib = libs[os.environ.get("RDSIM_FORCE_BUILD") or case.get("build", "plain")]
     results = []
     for i in range(len(case["lifetimes"])):
         if results and hasattr(prof, "continue_after") and not prof.continue_after(case, results):
